@@ -2500,6 +2500,10 @@ public:
         packedWord = 0;
       }
     }
+    if (value.empty()) {
+      // An empty string still has a word holding its length.
+      genData(packedWord);
+    }
     // Load the address of the string.
     switch (reg) {
     case Reg::A: genLDAC(label); break;
